@@ -122,9 +122,9 @@ Print Assumptions gen_splits_to_add_is_model.
 (* one iteration of the insertion loop on a well-formed working tree inside all_taxa_bitmask (root check,
    parent search test, already-there test, child gathering with its assert, the new edge's Bipartition,
    the final test, the re-grouping): the model's add_split *)
-Theorem gen_from_splits_step_is_model : forall all t s,
+Theorem gen_from_splits_step_is_model : forall rt all t s,
   mwf t -> s <> 0 -> msubset (m_mask t) all ->
-  gen_from_splits_step all t s = Ok (add_split t s).
+  gen_from_splits_step rt all t s = Ok (add_split t s).
 Proof. exact gen_from_splits_step_eq. Qed.
 Print Assumptions gen_from_splits_step_is_model.
 
